@@ -229,8 +229,12 @@ pub fn build_world(variant: u32, epoch: u32) -> World {
         ". 3600 IN SOA a.root. admin.root. 1 7200 3600 86400 300\n. 3600 IN NS a.root.\na.root. 3600 IN A 198.51.100.1\ntld. 3600 IN NS ns.tld.\ntld. 3600 IN DS {}\nns.tld. 3600 IN A 198.51.100.2\nother. 3600 IN TXT \"other tld\"\n",
         ds_text("tld.", &tld_key.1)
     );
+    // In two of the variants the DS set of zone.tld also holds a record for
+    // an algorithm the validator does not support (a pre-published key):
+    // RFC 4035 section 5.2 has a validator ignore those and use the rest.
+    let extra_ds = if variant % 2 == 1 { format!("zone.tld. 3600 IN DS 4711 15 2 {}\n", "AB".repeat(32)) } else { String::new() };
     let tld_text = format!(
-        "tld. 3600 IN SOA ns.tld. admin.tld. 1 7200 3600 86400 300\ntld. 3600 IN NS ns.tld.\nns.tld. 3600 IN A 198.51.100.2\nzone.tld. 3600 IN NS ns.zone.tld.\nzone.tld. 3600 IN DS {}\nns.zone.tld. 3600 IN A 198.51.100.3\nunsigned.tld. 3600 IN NS ns.unsigned.tld.\nns.unsigned.tld. 3600 IN A 198.51.100.4\nplain.tld. 3600 IN TXT \"in the tld zone\"\nalso.unsigned2.tld. 3600 IN TXT \"below an ent\"\n",
+        "tld. 3600 IN SOA ns.tld. admin.tld. 1 7200 3600 86400 300\ntld. 3600 IN NS ns.tld.\nns.tld. 3600 IN A 198.51.100.2\nzone.tld. 3600 IN NS ns.zone.tld.\n{extra_ds}zone.tld. 3600 IN DS {}\nns.zone.tld. 3600 IN A 198.51.100.3\nunsigned.tld. 3600 IN NS ns.unsigned.tld.\nns.unsigned.tld. 3600 IN A 198.51.100.4\nplain.tld. 3600 IN TXT \"in the tld zone\"\nalso.unsigned2.tld. 3600 IN TXT \"below an ent\"\n",
         ds_text("zone.tld.", &zone_key.1)
     );
     let zone_text = "zone.tld. 3600 IN SOA ns.zone.tld. admin.zone.tld. 1 7200 3600 86400 300\n\
